@@ -1356,3 +1356,87 @@ func (fi *FuncInfo) MustCrossInLoop(header *ssa.BasicBlock, target ssa.Instructi
 	}
 	return GateResult{OK: true}
 }
+
+// FeasiblePath decides whether block `to` can be reached from (from, idx)
+// along a path consistent with the pinned atoms (a branch whose atom
+// contradicts a pin over the same expressions is not taken; pins die when
+// something they read may be written).
+func (fi *FuncInfo) FeasiblePath(from *ssa.BasicBlock, idx int, pins []Atom, to *ssa.BasicBlock) (bool, string) {
+	p := fi.P
+	p.buildStoreIdx()
+	type item struct {
+		b    *ssa.BasicBlock
+		i    int
+		pins []Atom
+		path []string
+	}
+	key := func(b *ssa.BasicBlock, pins []Atom) string {
+		var s []string
+		for _, a := range pins {
+			s = append(s, a.String())
+		}
+		sort.Strings(s)
+		return fmt.Sprintf("%d|%s", b.Index, strings.Join(s, "&"))
+	}
+	seen := map[string]bool{}
+	stack := []item{{from, idx, pins, nil}}
+	first := true
+	for len(stack) > 0 {
+		it := stack[len(stack)-1]
+		stack = stack[:len(stack)-1]
+		if !first && it.b == to {
+			return true, strings.Join(it.path, " ; ")
+		}
+		k := key(it.b, it.pins)
+		if seen[k] && !first {
+			continue
+		}
+		seen[k] = true
+		first = false
+		pn := it.pins
+		for i := it.i; i < len(it.b.Instrs); i++ {
+			in := it.b.Instrs[i]
+			if len(pn) > 0 {
+				var keep []Atom
+				for _, q := range pn {
+					if p.mayWriteExprs(in, []*Expr{q.LE, q.RE}) == "" {
+						keep = append(keep, q)
+					}
+				}
+				pn = keep
+			}
+		}
+		for si, succ := range it.b.Succs {
+			if !FeasibleSucc(it.b, si) {
+				continue
+			}
+			path := it.path
+			np := pn
+			if a, ok := fi.EdgeAtom(Edge{it.b, si}); ok {
+				bad := false
+				for _, q := range pn {
+					if q.L == a.L && q.R == a.R && q.Implies(a.Negate()) {
+						bad = true
+					}
+				}
+				if bad {
+					continue
+				}
+				path = append(append([]string{}, it.path...), "["+a.String()+"]")
+			}
+			stack = append(stack, item{succ, 0, np, path})
+		}
+	}
+	return false, ""
+}
+
+// EdgeAtomsMatching returns atoms (with their expressions) of edges satisfying pred.
+func (fi *FuncInfo) EdgeAtomsMatching(pred func(Atom) bool) []Atom {
+	var out []Atom
+	for _, ea := range fi.AllEdgeAtoms() {
+		if pred(ea.A) {
+			out = append(out, ea.A)
+		}
+	}
+	return out
+}
